@@ -27,7 +27,7 @@ from vf.pysym.loader import SymWorld
 PROPERTY = "C12"
 SAMPLE = "s1"
 ID_VALUES = [7, 3, 9]  # phase-set ids by order of first use (numeric order differs from it on purpose)
-CHROMS = ["chr1", "chr2"]
+CHROMS = ["chr1", "chr2", "chr3"]
 ADDITIVE = [
     "variants", "phased", "unphased", "singletons", "blocks", "variant_per_block_sum", "bp_per_block_sum",
     "heterozygous_variants", "heterozygous_snvs", "phased_snvs",
@@ -464,6 +464,7 @@ class Counts(_Base):
     required_cover = [
         "ALL row", "missing or partial genotype present", "singleton phase set", "phase set with >= 2 members", "unphased het",
         "non-SNV het", "homozygous call", "record dropped by --only-snvs", "chromosome skipped by --chromosome", "HP encoding", "phased call without PS value",
+        "unrequested chromosome in front of the last requested one",
     ]
 
     def shapes(self, tier):
@@ -487,6 +488,9 @@ class Counts(_Base):
                                 out += [dict(base, cls0=c) for c in menu]
                             else:
                                 out.append(base)
+        # three chromosomes: a chromosome that was not asked for stands before / between / behind the requested ones
+        for sel in (["chr2", "chr3"], ["chr2,chr3"], ["chr3"], ["chr1", "chr3"], ["chr3", "chr2"], ["chr1"]):
+            out.append(dict(n=[1, 1, 1], tag="PS", dot=False, only_snvs=False, chromosomes=sel, snv=False, menu=["het", "ph", "hom"], three=True))
         return out
 
     def bounds(self, tier):
@@ -512,6 +516,8 @@ class Counts(_Base):
             e.cover("singleton phase set" if len(s) == 1 else "phase set with >= 2 members")
         if shape["chromosomes"] == ["chr2"]:
             e.cover("chromosome skipped by --chromosome")
+        if shape.get("three") and shape["chromosomes"] in (["chr2", "chr3"], ["chr2,chr3"], ["chr3", "chr2"]):
+            e.cover("unrequested chromosome in front of the last requested one")
         if shape["tag"] == "HP":
             e.cover("HP encoding")
 
